@@ -10,6 +10,7 @@ import math
 from fractions import Fraction as F
 
 import core
+from fns import big_shift_copies
 from adapters import Adapter
 from core import clist, obs_list, opt, q, z
 from fns import G, frs, np_epoch_ns, unfr
@@ -238,4 +239,5 @@ def gen_atten(tier, rng):
         cases.append(mk([F(1), F(3), F(0)], [0, 1], check, F(1), F(2), 2, None, None))
         cases.append(mk([F(1), F(3), F(0)], [0, 1], check, F(1), F(2), None, None, None))
         cases.append(mk([F(1), F(3)], [0, 1], check, F(5), F(2), -2, None, None))
+    cases += big_shift_copies(cases, "xs", rng, 150 if tier == "quick" else 1500, lambda c: c.get("check") == "range")
     return cases
